@@ -11,3 +11,5 @@ import TsVerif.C19.Props
 #print axioms TsVerif.C19.bounded_termination
 #print axioms TsVerif.C19.measure_init
 #print axioms TsVerif.C19.wait_free
+#print axioms TsVerif.C19.no_orphan_lock
+#print axioms TsVerif.C19.judge_orphan_of_model
